@@ -321,7 +321,8 @@ def job_wiring(j, seed):
 
 def job_quadrature(j, seed):
     """Image of a reference point (x^2+y^2<=1, |z|<=1) lies in the solid; weights scale by r^2 h / 2."""
-    apole = j
+    apole, *more = j if isinstance(j, tuple) else (j,)
+    mixed = bool(more and more[0])  # radius given in another length unit than base and height
     import numpy as np
     from symex import core as C
     from .symutil import fresh_run, sym_unit, vdot, vsub, vscale, vnorm2, vec
@@ -329,15 +330,17 @@ def job_quadrature(j, seed):
     sc, cyl, base = _load()
     fresh_run()
     obs, cands = [], []
-    tag = f'quadrature[a={apole or "generic"}]'
-    case = {'kind': 'quadrature', 'pole': apole}
+    tag = f'quadrature[a={apole or "generic"}' + (', radius in its own unit]' if mixed else ']')
+    case = {'kind': 'quadrature', 'pole': apole, 'mixed_units': mixed}
     uL = sym_unit('L', 'm')
+    uR = sym_unit('R', 'm') if mixed else uL
+    kR = C.R(uR.scale_rat()) / C.R(uL.scale_rat())  # radius expressed in the unit of the base
     a = _unit_vec(C, 'a', apole)
     c = [C.sym_var(f'c_{x}') for x in 'xyz']
     r, h = C.sym_var('r', sign='+'), C.sym_var('h', sign='+')
     x, y, z, w = C.sym_var('qx'), C.sym_var('qy'), C.sym_var('qz'), C.sym_var('qw', sign='+')
     ref_ok = [x * x + y * y <= 1, z >= -1, z <= 1]
-    shape = cyl.Cylinder(symmetry_line=_vecvar(sc, a, 'dimensionless'), center_of_base=_vecvar(sc, c, uL), radius=sc.scalar(r, unit=uL), height=sc.scalar(h, unit=uL))
+    shape = cyl.Cylinder(symmetry_line=_vecvar(sc, a, 'dimensionless'), center_of_base=_vecvar(sc, c, uL), radius=sc.scalar(r, unit=uR), height=sc.scalar(h, unit=uL))
 
     def arr1(v):
         return sc.array(dims=['quad'], values=[v])
@@ -375,7 +378,7 @@ def job_quadrature(j, seed):
         ob = C.prove(f'{tag}:path{k}:axial coordinate of the image = h (1 +- z) / 2', (along == h * (1 + z) / 2) | (along == h * (1 - z) / 2), pc=p_.pc, timeout_ms=60000)
         obs.append(ob_dict(ob))
         bad = ob.status == 'violated'
-        ob2 = C.prove(f'{tag}:path{k}:radial distance^2 of the image = r^2 (x^2 + y^2)', perp2 == r * r * (x * x + y * y), pc=p_.pc, timeout_ms=60000)
+        ob2 = C.prove(f'{tag}:path{k}:radial distance^2 of the image = r^2 (x^2 + y^2)', perp2 == (r * kR) * (r * kR) * (x * x + y * y), pc=p_.pc, timeout_ms=60000)
         obs.append(ob_dict(ob2))
         bad = bad or ob2.status == 'violated'
         if bad:
@@ -386,11 +389,11 @@ def job_quadrature(j, seed):
         ob = C.prove(f'{tag}:path{k}:image inside the solid (from (a))', (A_ >= 0) & (A_ <= h) & (R2 <= r * r),
                      assumptions=[*ref_ok, (A_ == h * (1 + z) / 2) | (A_ == h * (1 - z) / 2), R2 == r * r * (x * x + y * y)])
         obs.append(ob_dict(ob))
-        ob = C.prove(f'{tag}:path{k}:weight = reference weight * r^2 h / 2 (> 0)', (wts.values[0] == w * r * r * h / 2) & (wts.values[0] > 0), pc=p_.pc)
+        ob = C.prove(f'{tag}:path{k}:weight = reference weight * r^2 h / 2 (> 0)', (wts.values[0] * C.R(wts.unit.scale_rat()) == w * (r * C.R(uR.scale_rat())) ** 2 * (h * C.R(uL.scale_rat())) / 2) & (wts.values[0] > 0), pc=p_.pc)
         obs.append(ob_dict(ob))
         if ob.status == 'violated':
             cands.append(('C18:quadrature:weights', case, 'weights'))
-        ob = C.prove(f'{tag}:path{k}:units', C.B.const(pts.unit == uL and wts.unit == uL ** 3), pc=p_.pc)
+        ob = C.prove(f'{tag}:path{k}:units', C.B.const(pts.unit == uL and wts.unit.dim == (uL ** 3).dim), pc=p_.pc)
         obs.append(ob_dict(ob))
     ob = C.prove(f'{tag}:some path', C.B.const(n >= 1))
     obs.append(ob_dict(ob))
@@ -593,7 +596,7 @@ def run(chk):
     kinds = [('fin', 'fin', 'fin', 'fin'), ('ninf', 'inf', 'fin', 'fin'), ('fin', 'fin', 'ninf', 'inf'), ('ninf', 'inf', 'ninf', 'inf')]
     run_jobs(chk, job_interval, kinds)
     run_jobs(chk, job_wiring, [0])
-    run_jobs(chk, job_quadrature, [None, 'south', 'north'])
+    run_jobs(chk, job_quadrature, [None, 'south', 'north', (None, True), ('north', True)])
     run_jobs(chk, job_k, [('cheap', 5, 5, 15), ('medium', 7, 7, 25), ('expensive', 11, 11, 35)])
     run_jobs(chk, job_transmission, [0])
     run_jobs(chk, job_material, ['float64', 'float32', 'int64'] + (['int32'] if chk.tier == 'thorough' else []))
@@ -664,7 +667,7 @@ def replay_real(case):
         al = d @ a
         perp = d - np.outer(al, a)
         rr = np.linalg.norm(perp, axis=1)
-        r, h = cyl_.radius.value, cyl_.height.value
+        r, h = cyl_.radius.to(unit=cyl_.center_of_base.unit).value, cyl_.height.to(unit=cyl_.center_of_base.unit).value
         return (al >= -tol * h) & (al <= h * (1 + tol)) & (rr <= r * (1 + tol))
 
     if kind == 'tables':
@@ -709,14 +712,17 @@ def replay_real(case):
             a /= np.linalg.norm(a)
             c_ = cy.Cylinder(symmetry_line=sc.vector(a), center_of_base=sc.vector(rng.normal(size=3), unit='m'), radius=sc.scalar(10 ** rng.uniform(-2, 2), unit='m'),
                              height=sc.scalar(10 ** rng.uniform(-2, 2), unit='m'))
+            if case.get('mixed_units'):
+                # the radius written in another length unit than base and height
+                c_ = cy.Cylinder(symmetry_line=c_.symmetry_line, center_of_base=c_.center_of_base, radius=c_.radius.to(unit=['mm', 'cm', 'km'][trial % 3]), height=c_.height)
             for qk in ('cheap', 'medium'):
                 pts, w = c_.quadrature(qk)
                 ins = inside(c_, pts.values)
                 if not ins.all():
                     bad.append(f'axis {a.tolist()}: {int((~ins).sum())} of {len(ins)} {qk} points outside the solid')
                     break
-                vol = np.pi * c_.radius.value ** 2 * c_.height.value
-                if abs(w.values.sum() - vol) > 1e-6 * vol or np.any(w.values <= 0):
+                vol = np.pi * c_.radius.to(unit='m').value ** 2 * c_.height.to(unit='m').value
+                if abs(w.to(unit='m^3').values.sum() - vol) > 1e-6 * vol or np.any(w.values <= 0):
                     bad.append('weights do not sum to the volume')
             if bad:
                 break
